@@ -154,6 +154,9 @@ func (fr *Frame) ghostAt(kind string, ord int, name, when string, reach T, st *S
 		if !(g.Callee == name || (kind != "call" && g.Callee == kind)) {
 			continue
 		}
+		if ex.ghostUsed != nil {
+			ex.ghostUsed[g] = true
+		}
 		env := fr.specEnv(st, fr.entry, fr.curBlock, nil)
 		env.atInstr = fr.curInstr
 		// only positional names are bound at an anchor (arg0.., result.., self, sent, ch): the callee's own parameter
@@ -176,6 +179,11 @@ func (fr *Frame) ghostAt(kind string, ord int, name, when string, reach T, st *S
 		case "assume":
 			ex.assume(reach, env.evalBool(g.Clause))
 			ex.assumed["anchored assumption at "+relPath(g.Clause.where())+": "+g.Clause.Text] = true
+		case "havoc":
+			// the effect of a library call on a local of the function under contract, abstracted (loses information only)
+			env.clause = g.Clause
+			env.havocItem(g.Clause.Text, st, reach)
+			ex.assumed["effect of the call at the anchor is abstracted as: havoc "+g.Clause.Text+" ("+relPath(g.Clause.where())+")"] = true
 		case "set":
 			env.clause = g.Clause
 			if g.Clause.Expr == nil {
@@ -267,6 +275,7 @@ func verifyFunc(L *Loaded, fc *FuncContract, fn *ssa.Function) (res *FuncResult)
 	}
 	ex := newExec(L, fc, tpkg)
 	ex.fnKey = fc.Key
+	ex.ghostUsed = map[*GhostAt]bool{}
 	ex.escaped = map[string]*LV{}
 	fr := ex.newFrame(fn, nil)
 	fr.top = true
@@ -346,6 +355,14 @@ func verifyFunc(L *Loaded, fc *FuncContract, fn *ssa.Function) (res *FuncResult)
 		if fc.NoFrame {
 			ex.assumed["modifies clause of "+shortKey(fc.Key)+" is not checked against its body (noframe): callers trust it"] = true
 		}
+	}
+	// an anchor that matched no instruction checks nothing: the contract is stale (or was written against a name the
+	// callee does not have), which must not pass silently
+	for _, g := range fc.Ghosts {
+		if g.Callee == "return" || g.Ordinal == -1 || ex.ghostUsed[g] {
+			continue
+		}
+		panic(engineErr("stale-contract", "%s: anchor `at %s %d of %s` matches no instruction", g.Clause.where(), g.Anchor, g.Ordinal, g.Callee))
 	}
 	res.Obligations = ex.obls
 	res.Decls = ex.finalDecls()
